@@ -34,6 +34,7 @@ pub fn default_ops() -> OpSpec {
         burst: 6,
         prompt_drain: 64,
         polite: true,
+        extra: 0,
     }
 }
 
@@ -42,7 +43,7 @@ pub fn run_sim(ctx: &mut Ctx, spec: &SimSpec, step: StepHook, after: &mut dyn Fn
     let cfg = gen_cfg(&mut ctx.src, &spec.cfg);
     ctx.op(&cfg);
     let mut w = World::new(cfg, spec.oracles.clone());
-    run_ops(&mut w, ctx, &spec.ops, step)?;
+    run_ops(&mut w, ctx, &spec.ops, step, &mut no_extra)?;
     let report = heal(&mut w, ctx, spec.liveness, step)?;
     if spec.quiescence && report.completed && (0..w.cfg.n_clients).all(|i| w.conn_alive(i)) {
         quiescence(&mut w, ctx, step, spec.quiescence_memory)?;
